@@ -15,8 +15,8 @@ pub struct Spec {
     pub reduce: u8, // 0 sum (saturating u32), 1 max, 2 mix, 3 first
 }
 
-impl CompressionSpec<u32> for Spec {
-    fn reduce(&self, a: u32, b: &u32) -> u32 {
+impl Spec {
+    fn raw_reduce(&self, a: u32, b: &u32) -> u32 {
         match self.reduce {
             0 => a.saturating_add(*b),
             1 => a.max(*b),
@@ -24,8 +24,27 @@ impl CompressionSpec<u32> for Spec {
             _ => a,
         }
     }
+}
+
+/// The two specs the crate ships are the ones actually used: `ScmapCompress` (join = payload equality; its `reduce` keeps the
+/// common payload and panics on unequal ones) for `eq`/`first`, `SimpleCompress` (join always, reduction by closure) for
+/// `always`/sum|max|mix.  Other combinations (only reachable by hand-written requests) use the plain functions.
+impl CompressionSpec<u32> for Spec {
+    fn reduce(&self, a: u32, b: &u32) -> u32 {
+        if self.join_eq && self.reduce == 3 {
+            debruijn::compression::ScmapCompress::<u32>::new().reduce(a, b)
+        } else if !self.join_eq {
+            debruijn::compression::SimpleCompress::new(|x: u32, y: &u32| self.raw_reduce(x, y)).reduce(a, b)
+        } else {
+            self.raw_reduce(a, b)
+        }
+    }
     fn join_test(&self, a: &u32, b: &u32) -> bool {
-        !self.join_eq || a == b
+        if self.join_eq {
+            debruijn::compression::ScmapCompress::<u32>::new().join_test(a, b)
+        } else {
+            debruijn::compression::SimpleCompress::new(|x: u32, y: &u32| self.raw_reduce(x, y)).join_test(a, b)
+        }
     }
 }
 
